@@ -19,6 +19,13 @@ class ConstraintOverrideRollbackVisitor(ConstraintOverrideVisitor):
         v = ConstraintOverrideRollbackVisitor()
         m.accept(v)
         
+    def visit_composite_field(self, f):
+        super().visit_composite_field(f)
+        # Dynamic blocks are only reached through references, and a
+        # reference made from an inline block is gone by now
+        for c in f.constraint_dynamic_model_l:
+            c.accept(self)
+        
     def visit_constraint_override(self, c : ConstraintOverrideModel):
         c.depth -= 1
         if c.depth <= 0:
